@@ -529,7 +529,7 @@ func (p *Program) runHarness(fn *ssa.Function, call string, work string, overlay
 	os.WriteFile(ovFile, ovJSON, 0o644)
 	bin := filepath.Join(dir, "replay.bin")
 	cmdline := fmt.Sprintf("cd %s && GOFLAGS=-mod=mod GOPROXY=off go build -overlay %s -o %s ./cmd/zz_verif_replay && %s", p.Repo, ovFile, bin, bin)
-	cmd := exec.Command("go", "build", "-overlay", ovFile, "-o", bin, "./cmd/zz_verif_replay")
+	cmd := exec.Command("go", "build", "-tags", "verif", "-overlay", ovFile, "-o", bin, "./cmd/zz_verif_replay")
 	cmd.Dir = p.Repo
 	cmd.Env = append(os.Environ(), "GOFLAGS=-mod=mod", "GOPROXY=off")
 	if out, err := cmd.CombinedOutput(); err != nil {
@@ -561,6 +561,13 @@ func (p *Program) judge(fr *FuncResult, model map[string]string, oc *outcome, wo
 	ex := fr.Exec
 	c := fr.Contract
 	fn := ex.Fn
+	// term construction below must see this function's definitions (not those of the function verified last)
+	CurDefs = map[string]*Term{}
+	for _, d := range ex.Defs {
+		CurDefs[d.Name] = d.T
+	}
+	NLMulUF = c.Options["nlmul"] == "uf"
+	defer func() { NLMulUF = false }()
 	var pins []*Term
 	var names []string
 	for n := range model {
